@@ -44,7 +44,10 @@ WORDING_HOSTS = {
 
 ATOMS = ["a", "1", '"s"', "./p", "true", "null", "1.5", "x.y", "[ ]", "{ }"]
 SUBS = ["{ x = 1; }", "[ 1 2 ]", "f x", "(a)", "let y = 1; in y", "x: x", "a + b", "if c then 1 else 2", "''\n  s\n''",
-        "{ inherit z; }", "with p; q", "-a", "a ? b", "rec { u = 1; v = u; }", "a.b.c or d", "001"]
+        "{ inherit z; }", "with p; q", "-a", "a ? b", "rec { u = 1; v = u; }", "a.b.c or d", "001",
+        # lexical forms with their own node types: search path, home path, escapes and interpolation in both string kinds
+        "<nixpkgs>", "~/x", '"s\\n${a}\\${b}"', "''\n  a ''${b} ${c}\n''", "a != b", "a >= b"]
+QUICK_SUBS = SUBS[:10] + SUBS[16:20]
 
 # token templates; E = expression hole
 TEMPLATES = {
@@ -327,7 +330,7 @@ def base_programs(tier: str):
         n = hole_count(tpl)
         yield name, "atoms", tokenize_template(tpl, ["a"] * n if n else [])
         for h in range(n):
-            for sub in (SUBS if tier == "thorough" else SUBS[:10]):
+            for sub in (SUBS if tier == "thorough" else QUICK_SUBS):
                 fill = ["a"] * n
                 fill[h] = sub
                 yield name, f"h{h}={sub}", tokenize_template(tpl, fill)
